@@ -5,6 +5,7 @@ import (
 	"fmt"
 	"github.com/gr33nbl00d/caddy-revocation-validator/config"
 	"github.com/gr33nbl00d/caddy-revocation-validator/core"
+	"github.com/gr33nbl00d/caddy-revocation-validator/core/verifhook"
 	"github.com/gr33nbl00d/caddy-revocation-validator/crl/crlrepository"
 	"github.com/gr33nbl00d/caddy-revocation-validator/crl/crlstore"
 	"go.uber.org/zap"
@@ -179,6 +180,8 @@ func (c *CRLRevocationChecker) initCRLUpdateTicker() {
 func (c *CRLRevocationChecker) updateCRLs(forceUpdate bool) {
 	crlUpdateMutex.Lock()
 	defer crlUpdateMutex.Unlock()
+	verifhook.Hit("checker.update.start")
+	defer verifhook.Hit("checker.update.done")
 
 	// If crl update was recently done, don't do it again for now. Although the ticker
 	// drops missed ticks for us, config reloads discard the old ticker and replace it
